@@ -67,6 +67,11 @@ class Tr:
             if d in self.consts:
                 return '(EConst %s)' % const_value(self.consts[d])
             return '(EVar %s)' % cstring(d)
+        if isinstance(e, ast.ListComp):
+            if len(e.generators) != 1 or e.generators[0].ifs or e.generators[0].is_async or not isinstance(e.generators[0].target, ast.Name):
+                raise Untranslatable('comprehension other than [f(x) for x in xs]')
+            g = e.generators[0]
+            return '(EComp %s %s %s)' % (cstring(g.target.id), self.expr(e.elt), self.expr(g.iter))
         if isinstance(e, ast.Dict) and not e.keys:
             return '(EConst (VDict []))'
         if isinstance(e, ast.BinOp) and isinstance(e.op, ast.Mod) and isinstance(e.left, ast.Constant) and isinstance(e.left.value, str):
@@ -135,6 +140,8 @@ class Tr:
                     return '(EIsStr %s)' % self.expr(e.args[0])
                 if f.id == 'isinstance' and len(e.args) == 2 and isinstance(e.args[1], ast.Name) and e.args[1].id == 'dict':
                     return '(EIsDict %s)' % self.expr(e.args[0])
+                if f.id == 'set' and len(e.args) == 1:
+                    return '(ESetOf %s)' % self.expr(e.args[0])
                 if f.id == 'list' and len(e.args) == 1:
                     a = e.args[0]
                     if isinstance(a, ast.Call) and isinstance(a.func, ast.Attribute) and a.func.attr == 'keys' and not a.args:
@@ -144,6 +151,8 @@ class Tr:
                     d = dotted(a)
                     if d in self.consts and isinstance(self.consts[d], dict):
                         return '(EConst %s)' % const_value(list(self.consts[d].keys()))
+                if f.id[:1].isupper():         # construction of another object of the library: interpreted by the primitive table
+                    return '(ECall %s [%s])' % (cstring(f.id), '; '.join(self.expr(a) for a in e.args))
                 raise Untranslatable('call of %s' % f.id)
             if dotted(f) in ('np.mod', 'numpy.mod') and len(e.args) == 2 and not e.keywords:
                 return '(EMod %s %s)' % (self.expr(e.args[0]), self.expr(e.args[1]))
@@ -160,6 +169,9 @@ class Tr:
                     return '(EStrip %s)' % self.expr(f.value)
                 if f.attr == 'count' and len(e.args) == 1:
                     return '(ECount %s %s)' % (self.expr(f.value), self.expr(e.args[0]))
+                if isinstance(f.value, ast.Name) and f.value.id in self.assigned and not e.args:
+                    # a method of an object held in a local variable (built by a call above): primitive ".method"(object)
+                    return '(ECall %s [%s])' % (cstring('.' + f.attr), self.expr(f.value))
                 raise Untranslatable('method %s' % f.attr)
             raise Untranslatable('call')
         raise Untranslatable('expression %s' % type(e).__name__)
@@ -275,6 +287,10 @@ FUNCS = [
      'len(userAlphabet) > 0'),
     ('g_init_prefix', 'localcider/backend/sequence.py', 'Sequence', '__init__', [],
      ('upto', 'self.chargePattern = chargePattern')),
+    ('g_parse_group', 'localcider/backend/sequence.py', 'Sequence', '__parse_group', ['aminoacids.']),
+    ('g_kappa_X', 'localcider/backend/sequence.py', 'Sequence', 'kappa_X', []),
+    ('g_Omega', 'localcider/backend/sequence.py', 'Sequence', 'Omega', []),
+    ('g_Omega_seq', 'localcider/backend/sequence.py', 'Sequence', 'Omega_seq', []),
     ('g_parseSeqFile', 'localcider/backend/seqfileparser.py', 'SequenceFileParser', 'parseSeqFile', []),
 ]
 
